@@ -433,8 +433,8 @@ def desugar(F):
                 recv = t['args'][0]
                 fcl = _closure_of(F, b, t['args'][1])
                 pl = _option_payload(b.locals[recv['p']['l']]['ty']) if recv['k'] != 'const' and not recv['p']['proj'] else None
-                if fcl is None or fcl.argc != 2 or pl is None:
-                    continue
+                if fcl is None or fcl.argc != 2 or pl is None or not _interesting(F, fcl.path):
+                    continue        # (a pure predicate - `|&t| t > 0` - stays a `filter` call: the value rules report it as what it is)
                 none = {'k': 'agg', 'ak': 'adt', 'adt': 'std::option::Option', 'variant': 0, 'vname': 'None', 'fields': [], 'ops': []}
                 payload_pl = {'l': recv['p']['l'], 'proj': [{'dc': 1, 'name': 'Some'}, {'f': 0, 'name': '0', 'ty': pl}]}
                 b.locals.append({'ty': 'isize', 'name': None, 'user': False})
